@@ -188,6 +188,25 @@ def run_keep(ctx: Ctx) -> RuleResult:
     return res
 
 
+def _tri(e: ast.AST, env: Dict[str, bool]):
+    """three-valued evaluation of a test over the atoms in env (None = unknown)."""
+    if isinstance(e, ast.Name):
+        return env.get(e.id)
+    if isinstance(e, ast.UnaryOp) and isinstance(e.op, ast.Not):
+        v = _tri(e.operand, env)
+        return None if v is None else not v
+    if isinstance(e, ast.BoolOp):
+        vals = [_tri(v, env) for v in e.values]
+        if isinstance(e.op, ast.Or):
+            if any(v is True for v in vals):
+                return True
+            return False if all(v is False for v in vals) else None
+        if any(v is False for v in vals):
+            return False
+        return True if all(v is True for v in vals) else None
+    return None
+
+
 def _fmt_prefix(s: str) -> str:
     i = s.find('%')
     return s if i < 0 else s[:i]
@@ -238,6 +257,22 @@ def run_prefix(ctx: Ctx) -> RuleResult:
         if not ok:
             res.finding(f, f.node, 'CNF %s helper names %s are not recognised by revert_cnf (tests %s): CYK trees keep helper nodes or '
                         'lose real ones' % (what, prod, cons), construct='prefix:cyk-' + what.split()[0].lower())
+    # the split helper's name encodes (lhs, rhs) injectively: components are str()/repr() of the symbols (delimited by the
+    # Symbol repr), never bare names glued with a character that names can contain
+    comp_bad = []
+    for n in sp.body_nodes():
+        if isinstance(n, ast.Assign) and isinstance(n.targets[0], ast.Name) and n.targets[0].id == 'rule_str':
+            for x in ast.walk(n.value):
+                if isinstance(x, ast.Attribute) and x.attr == 'name':
+                    comp_bad.append(norm(x))
+    symrepr = repo.cls('lark.grammar:Symbol').methods.get('__repr__')
+    delim = symrepr is not None and any(const_str(x.left) == '%s(%r)' for x in symrepr.body_nodes()
+                                        if isinstance(x, ast.BinOp) and isinstance(x.op, ast.Mod))
+    ok2 = not comp_bad and delim
+    res.ob('%s %s' % (sp.loc(), sp.qual), 'split helper names are built from str() of the symbols (delimited), so distinct rules get distinct helpers', ok2)
+    if not ok2:
+        res.finding(sp, sp.node, 'CNF split helper names are glued from bare symbol names %s: rules such as `x_y z` and `x y_z` collide on one '
+                    'helper non-terminal and CYK accepts/derives across them' % comp_bad[:2], construct='prefix:cyk-injective')
     ok = len(set(cons)) == 2 and not any(a != b and (a.startswith(b) or b.startswith(a)) for a in cons for b in cons)
     res.ob('%s %s' % (rv.loc(), rv.qual), 'the two CNF prefixes %s do not shadow each other' % cons, ok)
     if not ok:
@@ -318,6 +353,45 @@ def run_ambig_index(ctx: Ctx) -> RuleResult:
     res.ob('%s %s' % (mcf.loc(), mcf.qual), 'placeholders accumulate over dropped symbols and attach to the next kept one', ok, props=['C03'])
     if not ok:
         res.finding(mcf, mcf.node, 'the accumulation of None placeholders over filtered symbols changed', construct='nones-accumulate', props=['C03'])
+    # the in-place (LALR) child filters are selected only when the tree is not ambiguous
+    import itertools as _it
+    sel_bad = []
+    n_sel = 0
+    for r in [n for n in mcf.body_nodes() if isinstance(n, ast.Return) and n.value is not None]:
+        call = r.value
+        if not (isinstance(call, ast.Call) and norm(call.func) == 'partial' and call.args):
+            continue
+        conds = [a for a in ancestors(r) if isinstance(a, ast.If)]
+        for amb, emp in _it.product([False, True], repeat=2):
+            env = {'ambiguous': amb, '_empty_indices': emp}
+            # is this return reachable under the valuation? (unknown atoms: assume both)
+            reachable = True
+            p_ = r
+            for a in ancestors(r):
+                if isinstance(a, ast.If):
+                    v = _tri(a.test, env)
+                    in_body = any(p_ is x for x in a.body) or any(p_ is y for x in a.body for y in ast.walk(x))
+                    if v is not None and v != in_body:
+                        reachable = False
+                p_ = a
+            if not reachable:
+                continue
+            cls = call.args[0]
+            name = None
+            if isinstance(cls, ast.IfExp):
+                v = _tri(cls.test, env)
+                name = norm(cls.body) if v else norm(cls.orelse) if v is not None else None
+            else:
+                name = norm(cls)
+            n_sel += 1
+            if amb and name is not None and 'LALR' in name:
+                sel_bad.append((amb, emp, name))
+    ok = not sel_bad and n_sel >= 4
+    res.ob('%s %s' % (mcf.loc(), mcf.qual), 'the in-place child filters (ChildFilterLALR*) are chosen only when ambiguous is false '
+           '(%d selections evaluated)' % n_sel, ok)
+    if not ok:
+        res.finding(mcf, mcf.node, 'an in-place (LALR) child filter is selected under ambiguity %s: it reuses a child\'s list, which several '
+                    'derivations share in an ambiguous forest' % sel_bad[:2], construct='inplace-under-ambiguity')
     esc = repo.func('lark.parse_tree_builder:ExpandSingleChild.__call__')
     body = ' '.join(norm(s) for s in esc.node.body)
     ok = 'if len(children) == 1' in body and 'return children[0]' in body
